@@ -67,6 +67,34 @@ def rc4 (key data : Bytes) : Except Err Bytes :=
 
 /-! ## primitives -/
 
+/-- The character classes of RFC 3454 used by SASLprep (Python's `stringprep` module) and Unicode
+    3.2 NFKC (`unicodedata.ucd_3_2_0.normalize`): trusted tables, abstract here. -/
+structure SaslTables where
+  c12 : Nat → Bool            -- in_table_c12: non-ASCII space characters
+  b1 : Nat → Bool             -- in_table_b1: commonly mapped to nothing
+  prohibited : Nat → Bool     -- any of `_PROHIBITED` (see Gen: SASL_PROHIBITED_TABLES) or in_table_a1
+  d1 : Nat → Bool             -- in_table_d1: RandALCat
+  d2 : Nat → Bool             -- in_table_d2: LCat
+  nfkc : List Nat → List Nat
+
+/-- `_saslprep.saslprep(data)` (repaired: the empty result is returned instead of `data[0]`
+    raising IndexError); `none` = PDFValueError. -/
+def saslprepModel (T : SaslTables) (data : List Nat) : Option (List Nat) :=
+  -- step 1: map
+  let mapped := (data.filter (fun c => ! T.b1 c)).map (fun c => if T.c12 c then SASL_SPACE else c)
+  -- step 2: normalise
+  let norm := T.nfkc mapped
+  match norm.head?, norm.getLast? with
+  | some first, some last =>
+    if T.d1 first then
+      if ! T.d1 last then none                                    -- failed bidirectional check
+      else if norm.any (fun c => T.prohibited c || T.d2 c) then none
+      else some norm
+    else
+      if norm.any (fun c => T.prohibited c || T.d1 c) then none
+      else some norm
+  | _, _ => some norm                                             -- everything mapped to nothing
+
 structure Prims where
   md5 : Bytes → Bytes
   sha256 : Bytes → Bytes
@@ -76,8 +104,8 @@ structure Prims where
   aesDec : Bytes → Bytes → Bytes → Bytes
   /-- `Cipher(AES(key), CBC(iv)).encryptor()`: `update(data) + finalize()` -/
   aesEnc : Bytes → Bytes → Bytes → Bytes
-  /-- `_saslprep.saslprep` on code points; `none` = PDFValueError (prohibited / bidi) -/
-  saslprep : List Nat → Option (List Nat)
+  /-- tables behind `_saslprep.saslprep` -/
+  sasl : SaslTables
 
 /-! ## small Python helpers -/
 
@@ -261,7 +289,7 @@ def passwordHash (P : Prims) (r : Int) (pw salt vec : Bytes) : Bytes :=
 def normalizePassword (P : Prims) (r : Int) (pw : List Nat) : Except Err Bytes :=
   if r = 6 then
     if pw.isEmpty then .ok []
-    else match P.saslprep pw with
+    else match saslprepModel P.sasl pw with
       | none => .error .passwordIncorrect
       | some q => match encodeUtf8 q with
         | some b => .ok (b.take UTF8_PASSWORD_MAX)
@@ -455,5 +483,83 @@ def getobj (P : Prims) (h : Handler) (loc : Loc) (objid genno : Nat) (o : Obj) :
   match loc with
   | .direct => decipherAll (decrypt P h objid genno false) (decrypt P h objid genno) o
   | _ => o
+
+/-! ## instrumented traversal: which bytes go through the cipher, and how often -/
+
+/-- One call of `handler.decrypt`: on a string (`attrs=None`) or on a stream payload (`attrs` given;
+    `isMeta` = its Type is /Metadata). -/
+inductive Call where
+  | str (b : Bytes)
+  | payload (isMeta : Bool) (raw : Bytes)
+  deriving DecidableEq, Repr
+
+mutual
+/-- `decipher_all` + the decipher step of `PDFStream.decode`, returning also the list of cipher
+    calls in traversal order.  `decipherAll` is its first projection (`decipherAllT_fst`). -/
+def decipherAllT (f : Bytes → Bytes) (g : Bool → Bytes → Bytes) : Obj → Obj × List Call
+  | .str b => if b.isEmpty then (.str b, []) else (.str (f b), [.str b])
+  | .atom a => (.atom a, [])
+  | .arr xs => let r := decipherListT f g xs; (.arr r.1, r.2)
+  | .dict kvs => let r := decipherKVsT f g kvs; (.dict r.1, r.2)
+  | .stream attrs raw =>
+    if attrsType attrs = some atomXRef then (.stream attrs raw, [])
+    else
+      let r := decipherKVsT f g attrs
+      let m : Bool := attrsType attrs = some atomMetadata
+      (.stream r.1 (g m raw), r.2 ++ [.payload m raw])
+def decipherListT (f : Bytes → Bytes) (g : Bool → Bytes → Bytes) : List Obj → List Obj × List Call
+  | [] => ([], [])
+  | x :: xs =>
+    let a := decipherAllT f g x
+    let b := decipherListT f g xs
+    (a.1 :: b.1, a.2 ++ b.2)
+def decipherKVsT (f : Bytes → Bytes) (g : Bool → Bytes → Bytes) :
+    List (Bytes × Obj) → List (Bytes × Obj) × List Call
+  | [] => ([], [])
+  | (k, v) :: rest =>
+    let a := decipherAllT f g v
+    let b := decipherKVsT f g rest
+    ((k, a.1) :: b.1, a.2 ++ b.2)
+end
+
+mutual
+/-- What the property demands: every non-empty string of the object exactly once (at any nesting
+    depth, also inside a stream dictionary), the payload of a stream once, nothing for a
+    cross-reference stream. -/
+def expectedCalls : Obj → List Call
+  | .str b => if b.isEmpty then [] else [.str b]
+  | .atom _ => []
+  | .arr xs => expectedCallsList xs
+  | .dict kvs => expectedCallsKVs kvs
+  | .stream attrs raw =>
+    if attrsType attrs = some atomXRef then []
+    else expectedCallsKVs attrs ++ [.payload (attrsType attrs = some atomMetadata) raw]
+def expectedCallsList : List Obj → List Call
+  | [] => []
+  | x :: xs => expectedCalls x ++ expectedCallsList xs
+def expectedCallsKVs : List (Bytes × Obj) → List Call
+  | [] => []
+  | (_, v) :: rest => expectedCalls v ++ expectedCallsKVs rest
+end
+
+/-- The object cache of `PDFDocument` (`_cached_objs`), state carried across `getobj` calls. -/
+structure DocState where
+  cache : List (Nat × Obj) := []
+
+def cacheLookup (objid : Nat) : List (Nat × Obj) → Option Obj
+  | [] => none
+  | (k, o) :: rest => if k = objid then some o else cacheLookup objid rest
+
+/-- `PDFDocument.getobj` with its cache: result, new state, cipher calls made by this call. -/
+def getobjSt (P : Prims) (h : Handler) (caching : Bool) (st : DocState) (loc : Loc)
+    (objid genno : Nat) (stored : Obj) : Obj × DocState × List Call :=
+  match cacheLookup objid st.cache with
+  | some o => (o, st, [])
+  | none =>
+    let r : Obj × List Call :=
+      match loc with
+      | .direct => decipherAllT (decrypt P h objid genno false) (decrypt P h objid genno) stored
+      | _ => (stored, [])
+    (r.1, if caching then { cache := (objid, r.1) :: st.cache } else st, r.2)
 
 end PdfVerif.Crypt
